@@ -116,6 +116,38 @@ func (c *Ctx) keyProvenance(fd *ast.FuncDecl, e ast.Expr, defs map[types.Object]
 	case *ast.Ident:
 		ds := defs[c.objOf(x)]
 		if len(ds) == 0 {
+			// a parameter: every package call site must pass a canonical key
+			if pi := c.paramIndex(fd, c.objOf(x)); pi >= 0 && depth < 3 {
+				self, _ := c.Info.Defs[fd.Name].(*types.Func)
+				sites := 0
+				for _, g := range c.allFuncDecls() {
+					if g.Body == nil {
+						continue
+					}
+					gdefs := c.localDefs(g)
+					var bad string
+					ast.Inspect(g.Body, func(n ast.Node) bool {
+						call, ok := n.(*ast.CallExpr)
+						if !ok || pi >= len(call.Args) {
+							return true
+						}
+						if f, ok := c.callee(call).(*types.Func); !ok || f != self {
+							return true
+						}
+						sites++
+						if ok, why := c.keyProvenance(g, call.Args[pi], gdefs, depth+1); !ok {
+							bad = why
+						}
+						return true
+					})
+					if bad != "" {
+						return false, bad
+					}
+				}
+				if sites > 0 {
+					return true, ""
+				}
+			}
 			return false, "key " + x.Name + " comes from outside the function un-normalised"
 		}
 		for _, d := range ds {
@@ -132,6 +164,18 @@ func (c *Ctx) keyProvenance(fd *ast.FuncDecl, e ast.Expr, defs map[types.Object]
 		return false, "no key"
 	}
 	return false, "key " + exprString(e) + " is not produced by the normaliser"
+}
+
+func (c *Ctx) paramIndex(fd *ast.FuncDecl, o types.Object) int {
+	for i := 0; ; i++ {
+		p := c.paramObj(fd, i)
+		if p == nil {
+			return -1
+		}
+		if p == o {
+			return i
+		}
+	}
 }
 
 func ruleCanonKey(c *Ctx) {
@@ -202,6 +246,17 @@ func (c *Ctx) idScopeKey(rule string) {
 	}
 }
 
+func (c *Ctx) hasCacheCall(fd *ast.FuncDecl, method string) *ast.CallExpr {
+	var out *ast.CallExpr
+	ast.Inspect(fd.Body, func(n ast.Node) bool {
+		if call, ok := n.(*ast.CallExpr); ok && c.isCacheCall(call, method) {
+			out = call
+		}
+		return true
+	})
+	return out
+}
+
 func ruleLoadOnce(c *Ctx) {
 	const rule = "load-once"
 	var sites []*ast.CallExpr
@@ -222,10 +277,6 @@ func ruleLoadOnce(c *Ctx) {
 	if len(sites) != 1 {
 		return
 	}
-	fd, call := home, sites[0]
-	fn := c.funcName(fd)
-	c.saw(fn)
-	// other readers of the loader field
 	readers := 0
 	for _, g := range c.allFuncDecls() {
 		if g.Body == nil {
@@ -247,45 +298,93 @@ func ruleLoadOnce(c *Ctx) {
 	}
 	c.ob(rule, "loader-field-single-reader", token.NoPos, readers == 1, fmt.Sprintf("the loader field is read at %d places; only the guarded call site may use it", readers))
 
-	defs := c.localDefs(fd)
-	keyID, _ := unparen(call.Args[0]).(*ast.Ident)
-	// the cache lookup
-	var getCall, setCall *ast.CallExpr
-	var hitVar types.Object
-	ast.Inspect(fd.Body, func(n ast.Node) bool {
-		switch x := n.(type) {
-		case *ast.AssignStmt:
-			if len(x.Rhs) == 1 && len(x.Lhs) == 2 {
-				if gc, ok := unparen(x.Rhs[0]).(*ast.CallExpr); ok && c.isCacheCall(gc, "Get") {
-					getCall = gc
-					if id, ok := x.Lhs[1].(*ast.Ident); ok {
-						hitVar = c.objOf(id)
+	// region: the function that consults the cache. When the loader call sits in a helper that receives the
+	// key as a parameter, the helper's (single) call site plays the role of the loader call.
+	helper := (*ast.FuncDecl)(nil)
+	region, call := home, sites[0]
+	var keyExpr ast.Expr = call.Args[0]
+	if c.hasCacheCall(home, "Get") == nil {
+		kid, ok := unparen(call.Args[0]).(*ast.Ident)
+		pi := -1
+		if ok {
+			pi = c.paramIndex(home, c.objOf(kid))
+		}
+		if pi < 0 || len(c.localDefs(home)[c.objOf(kid)]) > 0 {
+			c.ob(rule, c.funcName(home)+":shape", home.Pos(), false, "the loader is called in a function that neither consults the cache nor receives the key unchanged as a parameter")
+			return
+		}
+		self, _ := c.Info.Defs[home.Name].(*types.Func)
+		var callers []*ast.FuncDecl
+		var callSites []*ast.CallExpr
+		for _, g := range c.allFuncDecls() {
+			if g.Body == nil {
+				continue
+			}
+			ast.Inspect(g.Body, func(n ast.Node) bool {
+				if cc, ok := n.(*ast.CallExpr); ok {
+					if f, ok := c.callee(cc).(*types.Func); ok && f == self {
+						callers = append(callers, g)
+						callSites = append(callSites, cc)
 					}
 				}
-			}
-		case *ast.CallExpr:
-			if c.isCacheCall(x, "Set") {
-				setCall = x
+				return true
+			})
+		}
+		if len(callSites) != 1 || pi >= len(callSites[0].Args) {
+			c.ob(rule, c.funcName(home)+":shape", home.Pos(), false, fmt.Sprintf("the loading helper is called from %d places; exactly one (behind the cache lookup) is expected", len(callSites)))
+			return
+		}
+		helper, region, call = home, callers[0], callSites[0]
+		keyExpr = call.Args[pi]
+	}
+	fd := region
+	fn := c.funcName(fd)
+	c.saw(fn)
+	if helper != nil {
+		c.saw(c.funcName(helper))
+	}
+	defs := c.localDefs(fd)
+	keyID, _ := unparen(keyExpr).(*ast.Ident)
+	var getCall *ast.CallExpr
+	var hitVar types.Object
+	ast.Inspect(fd.Body, func(n ast.Node) bool {
+		if as, ok := n.(*ast.AssignStmt); ok && len(as.Rhs) == 1 && len(as.Lhs) == 2 {
+			if gc, ok := unparen(as.Rhs[0]).(*ast.CallExpr); ok && c.isCacheCall(gc, "Get") {
+				getCall = gc
+				if id, ok := as.Lhs[1].(*ast.Ident); ok {
+					hitVar = c.objOf(id)
+				}
 			}
 		}
 		return true
 	})
-	if keyID != nil && getCall != nil && hitVar != nil && setCall == nil {
+	setInRegion := c.hasCacheCall(fd, "Set")
+	var setInHelper *ast.CallExpr
+	if helper != nil {
+		setInHelper = c.hasCacheCall(helper, "Set")
+	}
+	if keyID != nil && getCall != nil && hitVar != nil && setInRegion == nil && setInHelper == nil {
 		c.ob(rule, fn+":fill-before-success", call.Pos(), false, "the loaded document is never stored in the cache: every later reference to it fetches it again")
 		return
 	}
-	if keyID == nil || getCall == nil || setCall == nil || hitVar == nil {
-		c.ob(rule, fn+":shape", fd.Pos(), false, "cannot find key variable, cache lookup and cache fill around the loader call")
+	if keyID == nil || getCall == nil || hitVar == nil {
+		c.ob(rule, fn+":shape", fd.Pos(), false, "cannot find key variable and cache lookup around the loader call")
 		return
 	}
 	k := c.objOf(keyID)
-	sameKey := func(e ast.Expr) bool {
+	sameKey := func(e ast.Expr, want types.Object) bool {
 		id, ok := unparen(e).(*ast.Ident)
-		return ok && c.objOf(id) == k
+		return ok && c.objOf(id) == want
 	}
-	c.ob(rule, fn+":same-key", call.Pos(), sameKey(getCall.Args[0]) && sameKey(setCall.Args[0]) && len(defs[k]) == 1,
-		"the cache lookup, the loader call and the cache fill must use one and the same key variable, assigned once")
-	// loader call only on the miss branch
+	keyOK := sameKey(getCall.Args[0], k) && len(defs[k]) == 1
+	if setInRegion != nil {
+		keyOK = keyOK && sameKey(setInRegion.Args[0], k)
+	} else {
+		// the helper fills the cache under its (unchanged) key parameter
+		hk, _ := unparen(sites[0].Args[0]).(*ast.Ident)
+		keyOK = keyOK && hk != nil && sameKey(setInHelper.Args[0], c.objOf(hk))
+	}
+	c.ob(rule, fn+":same-key", call.Pos(), keyOK, "the cache lookup, the loader call and the cache fill must use one and the same key variable, assigned once")
 	miss := false
 	for _, cl := range c.literalsAt(fd, call) {
 		if id, ok := unparen(cl.e).(*ast.Ident); ok && c.objOf(id) == hitVar && cl.neg {
@@ -294,49 +393,87 @@ func ruleLoadOnce(c *Ctx) {
 	}
 	c.ob(rule, fn+":loader-only-on-miss", call.Pos(), miss && getCall.Pos() < call.Pos(),
 		"the loader is called although the document may be in the cache: documents are fetched more than once and a pre-loaded cache is ignored")
+
 	// every successful return after the load has filled the cache with the decoded document
 	const loaded, filled, decoded factBits = 1, 2, 4
-	var docVar types.Object
-	transfer := func(n ast.Node, in factBits) factBits {
-		ast.Inspect(n, func(m ast.Node) bool {
-			cc, ok := m.(*ast.CallExpr)
-			if !ok {
-				return true
-			}
-			switch {
-			case cc == call:
-				in |= loaded
-			case c.isPkgFunc(cc, "encoding/json", "Unmarshal") && len(cc.Args) == 2:
-				if p, ok := c.apath(cc.Args[1]); ok {
-					docVar = p.Root
+	analyse := func(afd *ast.FuncDecl, loadCall, setCall *ast.CallExpr, docFromCall bool) {
+		var docVar types.Object
+		if docFromCall {
+			docVar = c.resultVarOfCall(afd, loadCall)
+		}
+		transfer := func(n ast.Node, in factBits) factBits {
+			ast.Inspect(n, func(m ast.Node) bool {
+				cc, ok := m.(*ast.CallExpr)
+				if !ok {
+					return true
 				}
-				in |= decoded
-			case cc == setCall:
-				if len(cc.Args) == 2 {
-					if id, ok := unparen(cc.Args[1]).(*ast.Ident); ok && docVar != nil && c.objOf(id) == docVar && in&decoded != 0 {
-						in |= filled
+				switch {
+				case cc == loadCall:
+					in |= loaded
+					if docFromCall {
+						in |= decoded
 					}
+				case c.isPkgFunc(cc, "encoding/json", "Unmarshal") && len(cc.Args) == 2 && !docFromCall:
+					if p, ok := c.apath(cc.Args[1]); ok {
+						docVar = p.Root
+					}
+					in |= decoded
+				case cc == setCall:
+					if len(cc.Args) == 2 {
+						if id, ok := unparen(cc.Args[1]).(*ast.Ident); ok && docVar != nil && c.objOf(id) == docVar && in&decoded != 0 {
+							in |= filled
+						}
+					}
+				}
+				return true
+			})
+			return in
+		}
+		nret := 0
+		flowForward(c.cfgOf(afd), loaded, transfer, func(n ast.Node, in factBits) {
+			rs, ok := n.(*ast.ReturnStmt)
+			if !ok || in&loaded == 0 || len(rs.Results) == 0 {
+				return
+			}
+			if !isNilIdent(c, rs.Results[len(rs.Results)-1]) {
+				return
+			}
+			nret++
+			c.ob(rule, fmt.Sprintf("%s:fill-before-success#%d", c.funcName(afd), nret), rs.Pos(), in&filled != 0,
+				"a successful return after loading a document is reachable without the decoded document having been stored in the cache: it will be fetched again")
+		})
+		if nret == 0 {
+			c.ob(rule, c.funcName(afd)+":fill-before-success", afd.Pos(), false, "no successful return after the loader call was found")
+		}
+	}
+	switch {
+	case helper == nil:
+		analyse(fd, call, setInRegion, false)
+	case setInHelper != nil:
+		analyse(helper, sites[0], setInHelper, false)
+	default:
+		// helper loads and decodes, region stores: the helper must hand back the decoded document on success
+		returnsDecoded := true
+		var dv types.Object
+		ast.Inspect(helper.Body, func(n ast.Node) bool {
+			if cc, ok := n.(*ast.CallExpr); ok && c.isPkgFunc(cc, "encoding/json", "Unmarshal") && len(cc.Args) == 2 {
+				if p, ok := c.apath(cc.Args[1]); ok {
+					dv = p.Root
 				}
 			}
 			return true
 		})
-		return in
-	}
-	nret := 0
-	flowForward(c.cfgOf(fd), loaded, transfer, func(n ast.Node, in factBits) {
-		rs, ok := n.(*ast.ReturnStmt)
-		if !ok || in&loaded == 0 || len(rs.Results) == 0 {
-			return
-		}
-		if !isNilIdent(c, rs.Results[len(rs.Results)-1]) {
-			return
-		}
-		nret++
-		c.ob(rule, fmt.Sprintf("%s:fill-before-success#%d", fn, nret), rs.Pos(), in&filled != 0,
-			"a successful return after loading a document is reachable without the decoded document having been stored in the cache: it will be fetched again")
-	})
-	if nret == 0 {
-		c.ob(rule, fn+":fill-before-success", fd.Pos(), false, "no successful return after the loader call was found")
+		ast.Inspect(helper.Body, func(n ast.Node) bool {
+			if rs, ok := n.(*ast.ReturnStmt); ok && len(rs.Results) >= 2 && isNilIdent(c, rs.Results[len(rs.Results)-1]) {
+				id, ok := unparen(rs.Results[0]).(*ast.Ident)
+				if !ok || dv == nil || c.objOf(id) != dv {
+					returnsDecoded = false
+				}
+			}
+			return true
+		})
+		c.ob(rule, c.funcName(helper)+":returns-decoded-document", helper.Pos(), returnsDecoded && dv != nil, "the loading helper must hand back the document it decoded")
+		analyse(fd, call, setInRegion, true)
 	}
 }
 
